@@ -2,6 +2,7 @@ package main
 
 import (
 	"fmt"
+	"go/constant"
 	"go/token"
 	"go/types"
 	"strings"
@@ -58,47 +59,62 @@ func rulesTrieAddGuard(c *Ctx, r *Report) {
 		return
 	}
 	r.analysed(where)
-	s := newSymb(f)
 	n := 0
-	instrs(f, func(in ssa.Instruction) {
-		mu, ok := in.(*ssa.MapUpdate)
-		if !ok {
-			return
+	// Add and the helpers of its package it calls (get-or-create of a child)
+	fns := []*ssa.Function{f}
+	for _, g := range c.calleesIn(f) {
+		if g.Pkg == f.Pkg && g.Blocks != nil && g != f {
+			fns = append(fns, g)
 		}
-		n++
-		mk := s.expr(mu.Map).String() + "[" + s.expr(mu.Key).String() + "]"
-		guarded := false
-		for cur := mu.Block(); cur != nil && cur.Idom() != nil; cur = cur.Idom() {
-			d := cur.Idom()
-			iff, ok := lastInstr(d).(*ssa.If)
-			if !ok || len(cur.Preds) != 1 || cur.Preds[0] != d {
-				continue
-			}
-			bo, ok := iff.Cond.(*ssa.BinOp)
-			if !ok || (bo.Op != token.EQL && bo.Op != token.NEQ) {
-				continue
-			}
-			var lk *ssa.Lookup
-			if l, ok := bo.X.(*ssa.Lookup); ok && isNilConst(bo.Y) {
-				lk = l
-			} else if l, ok := bo.Y.(*ssa.Lookup); ok && isNilConst(bo.X) {
-				lk = l
-			}
-			if lk == nil || s.expr(lk.X).String()+"["+s.expr(lk.Index).String()+"]" != mk {
-				continue
-			}
-			onNil := d.Succs[0] == cur
-			if bo.Op == token.NEQ {
-				onNil = d.Succs[1] == cur
-			}
-			if onNil {
-				guarded = true
-			}
+	}
+	for _, fn := range fns {
+		s := newSymb(fn)
+		if fn != f {
+			where = fname(fn)
 		}
-		r.check(guarded, "ADD-GUARD", where, "child stored only where absent", c.pos(mu.Pos()),
-			"the store into "+mk+" is taken only on the nil edge of a lookup of the same map and key: an existing subtree is never replaced",
-			"the store into "+mk+" is not guarded by `lookup == nil` on the same map and key: adding a prefix of a member (or re-adding) replaces the subtree below it and loses members")
-	})
+		instrs(fn, func(in ssa.Instruction) {
+			mu, ok := in.(*ssa.MapUpdate)
+			if !ok {
+				return
+			}
+			if fn != f {
+				r.analysed(where)
+			}
+			n++
+			mk := s.expr(mu.Map).String() + "[" + s.expr(mu.Key).String() + "]"
+			guarded := false
+			for cur := mu.Block(); cur != nil && cur.Idom() != nil; cur = cur.Idom() {
+				d := cur.Idom()
+				iff, ok := lastInstr(d).(*ssa.If)
+				if !ok || len(cur.Preds) != 1 || cur.Preds[0] != d {
+					continue
+				}
+				bo, ok := iff.Cond.(*ssa.BinOp)
+				if !ok || (bo.Op != token.EQL && bo.Op != token.NEQ) {
+					continue
+				}
+				var lk *ssa.Lookup
+				if l, ok := bo.X.(*ssa.Lookup); ok && isNilConst(bo.Y) {
+					lk = l
+				} else if l, ok := bo.Y.(*ssa.Lookup); ok && isNilConst(bo.X) {
+					lk = l
+				}
+				if lk == nil || s.expr(lk.X).String()+"["+s.expr(lk.Index).String()+"]" != mk {
+					continue
+				}
+				onNil := d.Succs[0] == cur
+				if bo.Op == token.NEQ {
+					onNil = d.Succs[1] == cur
+				}
+				if onNil {
+					guarded = true
+				}
+			}
+			r.check(guarded, "ADD-GUARD", where, "child stored only where absent", c.pos(mu.Pos()),
+				"the store into "+mk+" is taken only on the nil edge of a lookup of the same map and key: an existing subtree is never replaced",
+				"the store into "+mk+" is not guarded by `lookup == nil` on the same map and key: adding a prefix of a member (or re-adding) replaces the subtree below it and loses members")
+		})
+	}
 	r.floor("ADD-GUARD", n, 1, "map updates in Add")
 }
 
@@ -217,6 +233,14 @@ func rulesTrieWalk(c *Ctx, r *Report) {
 // parameter is empty (conditions on len of the parameter — or of a loop variable that still holds it — are
 // evaluated, all other conditions are taken both ways).
 func reachUnderEmptyKey(f *ssa.Function, param ssa.Value) map[*ssa.BasicBlock]bool {
+	reached, _ := reachUnderEmptyKeyVals(f, param, 0)
+	return reached
+}
+
+// reachUnderEmptyKeyVals also reports, per reached return, the values result resIdx can have there ("true",
+// "false", or "?" when not a constant on that path).
+func reachUnderEmptyKeyVals(f *ssa.Function, param ssa.Value, resIdx int) (map[*ssa.BasicBlock]bool, map[*ssa.Return][]string) {
+	retVals := map[*ssa.Return][]string{}
 	reached := map[*ssa.BasicBlock]bool{}
 	type edge struct{ from, to *ssa.BasicBlock }
 	seenEdge := map[edge]bool{}
@@ -257,6 +281,12 @@ func reachUnderEmptyKey(f *ssa.Function, param ssa.Value) map[*ssa.BasicBlock]bo
 						cur.ints[x] = k
 					} else if k, ok := e.ints[x.Edges[i]]; ok {
 						cur.ints[x] = k
+					} else if kv := constVal(x.Edges[i]); kv != nil && kv.Kind() == constant.Bool {
+						if constant.BoolVal(kv) {
+							cur.ints[x] = 1
+						} else {
+							cur.ints[x] = 0
+						}
 					}
 				}
 			case *ssa.Call:
@@ -275,6 +305,20 @@ func reachUnderEmptyKey(f *ssa.Function, param ssa.Value) map[*ssa.BasicBlock]bo
 					}
 				}
 			}
+		}
+		if rt, ok := lastInstr(b).(*ssa.Return); ok {
+			ops := retOperands(rt)
+			val := "?"
+			if resIdx < len(ops) {
+				if kv := constVal(ops[resIdx]); kv != nil && kv.Kind() == constant.Bool {
+					val = kv.String()
+				} else if k, ok := cur.ints[ops[resIdx]]; ok {
+					if _, isBool := ops[resIdx].Type().Underlying().(*types.Basic); isBool && ops[resIdx].Type().Underlying().(*types.Basic).Kind() == types.Bool {
+						val = map[int64]string{0: "false", 1: "true"}[k]
+					}
+				}
+			}
+			retVals[rt] = append(retVals[rt], val)
 		}
 		outs := []bool{true, true}
 		if iff, ok := lastInstr(b).(*ssa.If); ok {
@@ -300,24 +344,60 @@ func reachUnderEmptyKey(f *ssa.Function, param ssa.Value) map[*ssa.BasicBlock]bo
 		}
 	}
 	walk(f.Blocks[0], nil, env{map[ssa.Value]bool{param: true}, map[ssa.Value]int64{}})
-	return reached
+	return reached, retVals
 }
 
 // rulesTrieEmptyKey (EMPTY-KEY): with an empty argument, Has can only return true and Add reaches no write.
 func rulesTrieEmptyKey(c *Ctx, r *Report) {
 	if f := c.fn("trie", "(*Trie).Has"); f != nil && len(f.Params) == 2 {
 		where := "trie.(*Trie).Has"
-		reached := reachUnderEmptyKey(f, f.Params[1])
+		// Has itself, or the function it hands the whole lookup to (its bool result returned as it is)
+		af, ap, resIdx := f, ssa.Value(f.Params[1]), 0
+		if g, call := c.soleDelegate(f); g != nil {
+			var rt *ssa.Return
+			instrs(f, func(in ssa.Instruction) {
+				if x, ok := in.(*ssa.Return); ok {
+					rt = x
+				}
+			})
+			pi := -1
+			for i, a := range call.Call.Args {
+				if a == ssa.Value(f.Params[1]) {
+					pi = i
+				}
+			}
+			if rt != nil && len(rt.Results) == 1 && pi >= 0 && pi < len(g.Params) {
+				switch x := rt.Results[0].(type) {
+				case *ssa.Extract:
+					if x.Tuple == ssa.Value(call) {
+						af, ap, resIdx = g, g.Params[pi], x.Index
+					}
+				case *ssa.Call:
+					if x == call {
+						af, ap, resIdx = g, g.Params[pi], 0
+					}
+				}
+			}
+			if af == g {
+				r.analysed(fname(g))
+			}
+		}
+		reached, vals := reachUnderEmptyKeyVals(af, ap, resIdx)
 		var bad []string
 		nRet := 0
-		instrs(f, func(in ssa.Instruction) {
+		instrs(af, func(in ssa.Instruction) {
 			rt, ok := in.(*ssa.Return)
 			if !ok || !reached[rt.Block()] {
 				return
 			}
 			nRet++
-			if k := constVal(retOperands(rt)[0]); k == nil || k.String() != "true" {
-				bad = append(bad, c.pos(rt.Pos()))
+			for _, v := range vals[rt] {
+				if v != "true" {
+					bad = append(bad, c.pos(returnPos(rt.Block(), rt)))
+				}
+			}
+			if len(vals[rt]) == 0 {
+				bad = append(bad, c.pos(returnPos(rt.Block(), rt)))
 			}
 		})
 		r.check(len(bad) == 0 && nRet > 0, "EMPTY-KEY", where, "Has(empty)", c.pos(f.Pos()),
@@ -688,6 +768,11 @@ func rulesTrieJSON(c *Ctx, r *Report) {
 	var mirrorT types.Type
 	if mcall != nil {
 		if mi, ok := mcall.Call.Args[0].(*ssa.MakeInterface); ok {
+			// the mirror handed over straight from the helper that builds it
+			if isMirrorCall(c, mi.X, mj) {
+				mirrorT = mi.X.Type()
+				okM = true
+			}
 			if ld, ok := mi.X.(*ssa.UnOp); ok {
 				if al, ok := ld.X.(*ssa.Alloc); ok {
 					mirrorT = al.Type().(*types.Pointer).Elem()
@@ -701,6 +786,13 @@ func rulesTrieJSON(c *Ctx, r *Report) {
 										okStore = false
 									}
 								}
+							}
+						}
+						// the mirror built by a helper of the node: m := t.mirror()
+						if st, ok := ref.(*ssa.Store); ok && st.Addr == ssa.Value(al) {
+							nStores++
+							if !isMirrorCall(c, st.Val, mj) {
+								okStore = false
 							}
 						}
 					}
@@ -774,4 +866,47 @@ func rulesReentrant(c *Ctx, r *Report, names []string) {
 		r.check(len(bad) == 0, "REENTRANT", fname(f), "working state is local", c.pos(f.Pos()), "the iterator body never assigns to a captured variable: two runs of the same iterator value do not share state", "the iterator body assigns to variables captured from outside ("+strings.Join(bad, "; ")+"): running the same iterator value twice (nested, or via two iter.Pull) corrupts both runs")
 	}
 	r.floor("REENTRANT", n, len(names), "iterator bodies")
+}
+
+// isMirrorCall: v is h(recv) for a straight-line module helper h that returns a struct whose single field store is
+// its receiver's map (load(P0.f0)).
+func isMirrorCall(c *Ctx, v ssa.Value, caller *ssa.Function) bool {
+	cl, ok := v.(*ssa.Call)
+	if !ok || len(cl.Call.Args) != 1 || len(caller.Params) == 0 || cl.Call.Args[0] != ssa.Value(caller.Params[0]) {
+		return false
+	}
+	h := cl.Call.StaticCallee()
+	if h == nil || h.Blocks == nil || !c.inModule(h) || len(h.Blocks) != 1 {
+		return false
+	}
+	hs := newSymb(h)
+	rt, ok := lastInstr(h.Blocks[0]).(*ssa.Return)
+	if !ok || len(rt.Results) != 1 {
+		return false
+	}
+	ld, ok := rt.Results[0].(*ssa.UnOp)
+	if !ok {
+		return false
+	}
+	al, ok := ld.X.(*ssa.Alloc)
+	if !ok {
+		return false
+	}
+	n, good := 0, true
+	for _, ref := range *al.Referrers() {
+		switch x := ref.(type) {
+		case *ssa.FieldAddr:
+			for _, r2 := range *x.Referrers() {
+				if st, ok := r2.(*ssa.Store); ok {
+					n++
+					if hs.expr(st.Val).String() != "load(P0.f0)" {
+						good = false
+					}
+				}
+			}
+		case *ssa.Store:
+			good = false
+		}
+	}
+	return n == 1 && good
 }
